@@ -3,15 +3,17 @@
 #  (1) demo fails with the change, (2) demo passes without it, (3) the repository's suite passes with it.
 set -u
 id=$1; wt=/tmp/wt/$id; out=/tmp/wt/out-$id; demo=${2:-seeded_demo}
+# DEMO_DIR: crate directory the demo test belongs to (default fastrace); DEMO_ARGS: extra cargo test arguments
+ddir=${DEMO_DIR:-fastrace}; dargs=${DEMO_ARGS:-}
 cd $wt || exit 3
 git checkout -q -- . ; git clean -fdq
 git apply $out/patch.diff || { echo "PATCH DOES NOT APPLY"; exit 3; }
-cp $out/$demo.rs fastrace/tests/$demo.rs 2>/dev/null || { echo "no demo file $out/$demo.rs"; ls $out; exit 3; }
+mkdir -p $ddir/tests; cp $out/$demo.rs $ddir/tests/$demo.rs 2>/dev/null || { echo "no demo file $out/$demo.rs"; ls $out; exit 3; }
 echo "== with change: demo"
-(cd fastrace && RUSTFLAGS="${DEMO_RUSTFLAGS:-}" cargo test --test $demo --offline ${DEMO_RUSTFLAGS:+--target-dir /tmp/wt/target-demo-$id} 2>&1 | grep -E "^test result|^test .*(FAILED|ok)$|error(\[|:)" | head -12)
+(cd $ddir && RUSTFLAGS="${DEMO_RUSTFLAGS:-}" cargo test --test $demo --offline $dargs ${DEMO_RUSTFLAGS:+--target-dir /tmp/wt/target-demo-$id} 2>&1 | grep -E "^test result|^test .*(FAILED|ok)$|error(\[|:)" | head -12)
 echo "== without change: demo"
 git apply -R $out/patch.diff
-(cd fastrace && RUSTFLAGS="${DEMO_RUSTFLAGS:-}" cargo test --test $demo --offline ${DEMO_RUSTFLAGS:+--target-dir /tmp/wt/target-demo-$id} 2>&1 | grep -E "^test result|^test .*(FAILED|ok)$|error(\[|:)" | head -12)
+(cd $ddir && RUSTFLAGS="${DEMO_RUSTFLAGS:-}" cargo test --test $demo --offline $dargs ${DEMO_RUSTFLAGS:+--target-dir /tmp/wt/target-demo-$id} 2>&1 | grep -E "^test result|^test .*(FAILED|ok)$|error(\[|:)" | head -12)
 echo "== with change: repository suite (demo removed)"
-git apply $out/patch.diff; rm fastrace/tests/$demo.rs
+git apply $out/patch.diff; rm $ddir/tests/$demo.rs
 cargo test --workspace --no-fail-fast --offline 2>&1 | grep -E "^test result" | awk '{p+=$4; f+=$6} END {print "passed",p,"failed",f}'
